@@ -94,3 +94,10 @@ class NocaseDict(HashableMixin, KeyableByMixin('name'), _NocaseDict):
     def pop(self, key, default=_OMITTED):
         self._check_unnamed_key(key)
         return super().pop(key, default)
+
+    def copy(self):
+        # The inherited copy() returns the (unhashable) vendored base class.
+        result = NocaseDict()
+        result._data = self._data.copy()  # pylint: disable=protected-access
+        result.allow_unnamed_keys = self.allow_unnamed_keys
+        return result
